@@ -1,9 +1,116 @@
-(* C18 — Banned directives (theorems are added by proofs/BanProofs.v) *)
+(* C18 — Banned directives.  Theorems about the core model (model/Core.v), for EVERY scanner
+   oracle (jsc_len, enum_len), file system and ban set.  Nothing but theorem statements, each
+   closed by `exact` of a lemma of proofs/BanProofs.v, each followed by Print Assumptions.
+
+   Vocabulary (proofs/BanProofs.v, proofs/IncludeProofs.v):
+     state_dirs s / forest_dirs f   every directive held by a scan state (pending directive, open
+                                    context frames and their subtrees, finished trees) / by a forest
+     next_keyword jsc enum s x1 l kw k
+                                    the next lexeme l of the current scanner is a Keyword whose text kw
+                                    names directive kind k (x1 = the scanner after it)
+     ban_error s l k                {file of the current scanner; begin of l; CENotAllowed k; include
+                                    trace of the scanner stack}
+     scan_step / scan_reach         one iteration of scanProject's loops / their closure
+     meets_banned … banned s        the run WITHOUT the option reaches a state whose next lexeme is a
+                                    keyword of a kind in `banned`
+     not_allowed_error r            r = CErr e with ce_kind e = CENotAllowed _ *)
 From Coq Require Import List NArith Bool.
+From JV.lib Require Import Bytes.
 From JV.gen Require Import DirectiveTables.
-From JV.model Require Import Core.
+From JV.model Require Import ScannerSem Core.
+From JV.proofs Require Import IncludeProofs BanProofs.
 Import ListNotations.
 
 Theorem ban_membership_is_by_kind : forall k l, kind_in k l = existsb (kind_eqb k) l.
 Proof. exact (fun k l => eq_refl). Qed.
 Print Assumptions ban_membership_is_by_kind.
+
+(* A banned kind never survives the scan: the scan creates no directive of a banned kind. *)
+Theorem ban_no_banned_directive : forall jsc_len enum_len files banned fuel s s',
+  scan_project jsc_len enum_len files banned fuel s = COk s' ->
+  (forall d, In d (state_dirs s) -> kind_in (d_kind d) banned = false) ->
+  forall d, In d (state_dirs s') -> kind_in (d_kind d) banned = false.
+Proof. exact ban_no_banned_directive_state. Qed.
+Print Assumptions ban_no_banned_directive.
+
+(* ... hence no node of the forest (macro bodies are ordinary subtrees) has a banned kind. *)
+Theorem ban_no_banned_directive_in_forest : forall jsc_len enum_len files banned root f,
+  scan_forest jsc_len enum_len files banned root = COk f ->
+  forall d, In d (forest_dirs f) -> kind_in (d_kind d) banned = false.
+Proof. exact ban_no_banned_directive_forest. Qed.
+Print Assumptions ban_no_banned_directive_in_forest.
+
+(* processKeyword: once the directive read before has found its place, a keyword of a banned kind
+   (other than JSIGHT inside an included file, refused as such) is 'not allowed' at that keyword. *)
+Theorem ban_keyword_not_allowed : forall banned s l kw k s1,
+  flush_cur s = COk s1 ->
+  cs_stack s = [] \/ beq kw (kind_keyword KJsight) = false ->
+  directive_type kw = Some k -> kind_in k banned = true ->
+  process_keyword banned s l kw = CErr (ban_error s l k).
+Proof. exact ban_keyword_rejected. Qed.
+Print Assumptions ban_keyword_not_allowed.
+
+(* processInclude: the ban is tested before anything else is done. *)
+Theorem ban_include_not_allowed : forall jsc_len enum_len files banned s l,
+  kind_in KInclude banned = true ->
+  process_include jsc_len enum_len files banned s l = CErr (ban_error s l KInclude).
+Proof. exact ban_include_rejected. Qed.
+Print Assumptions ban_include_not_allowed.
+
+(* The scan ends at the first keyword of a banned kind with 'not allowed' located at it; nothing
+   after it is processed (whatever fuel is left). *)
+Theorem ban_diagnostic_at_first : forall jsc_len enum_len files banned fuel s x1 l kw k,
+  next_keyword jsc_len enum_len s x1 l kw k -> kind_in k banned = true ->
+  k = KInclude \/ (exists s1, flush_cur (upd_sc s x1) = COk s1) ->
+  cs_stack s = [] \/ k <> KJsight ->
+  scan_project jsc_len enum_len files banned (S fuel) s = CErr (ban_error s l k).
+Proof. exact ban_diagnostic_at_first_lemma. Qed.
+Print Assumptions ban_diagnostic_at_first.
+
+(* Without side conditions: a keyword of a banned kind is never passed. *)
+Theorem ban_keyword_never_passed : forall jsc_len enum_len files banned fuel s x1 l kw k s',
+  next_keyword jsc_len enum_len s x1 l kw k -> kind_in k banned = true ->
+  scan_project jsc_len enum_len files banned (S fuel) s <> COk s'.
+Proof. exact ban_never_passes. Qed.
+Print Assumptions ban_keyword_never_passed.
+
+(* INCLUDE banned: the scan is independent of the file system (fs_stat is the model's only access
+   to files): nothing an INCLUDE names is read. *)
+Theorem include_banned_reads_nothing : forall jsc_len enum_len banned,
+  kind_in KInclude banned = true ->
+  forall files files' fuel s,
+  scan_project jsc_len enum_len files banned fuel s = scan_project jsc_len enum_len files' banned fuel s.
+Proof. exact include_banned_reads_nothing_lemma. Qed.
+Print Assumptions include_banned_reads_nothing.
+
+(* ... and no scanner is ever suspended: only the root file is scanned. *)
+Theorem include_banned_stack_empty : forall jsc_len enum_len banned,
+  kind_in KInclude banned = true ->
+  forall files s s',
+  cs_stack s = [] -> scan_reach jsc_len enum_len files banned s s' ->
+  cs_stack s' = [] /\ sc_file (cs_sc s') = sc_file (cs_sc s).
+Proof. exact include_banned_stack_empty_lemma. Qed.
+Print Assumptions include_banned_stack_empty.
+
+(* A result that is not a 'not allowed' refusal is exactly the result without the option. *)
+Theorem ban_conservative : forall jsc_len enum_len files banned fuel s,
+  (forall e k, scan_project jsc_len enum_len files banned fuel s = CErr e -> ce_kind e <> CENotAllowed k) ->
+  scan_project jsc_len enum_len files banned fuel s = scan_project jsc_len enum_len files [] fuel s.
+Proof. exact ban_conservative_lemma. Qed.
+Print Assumptions ban_conservative.
+
+(* Conversely: a project in which the run without the option never comes to a keyword of a banned
+   kind gives exactly the result it gives without the option. *)
+Theorem ban_conservative_converse : forall jsc_len enum_len files banned fuel s,
+  ~ meets_banned jsc_len enum_len files banned s ->
+  scan_project jsc_len enum_len files banned fuel s = scan_project jsc_len enum_len files [] fuel s.
+Proof. exact ban_conservative_converse_lemma. Qed.
+Print Assumptions ban_conservative_converse.
+
+(* The option is only ever felt as a 'not allowed' refusal of a project that contains a banned kind. *)
+Theorem ban_only_refuses : forall jsc_len enum_len files banned fuel s,
+  scan_project jsc_len enum_len files banned fuel s <> scan_project jsc_len enum_len files [] fuel s ->
+  not_allowed_error (scan_project jsc_len enum_len files banned fuel s) /\
+  meets_banned jsc_len enum_len files banned s.
+Proof. exact ban_only_refuses_lemma. Qed.
+Print Assumptions ban_only_refuses.
